@@ -1264,6 +1264,17 @@ def _sum(xs: Any, start: Any = 0) -> Any:
     return acc
 
 
+def _filter(f: Any, xs: Any) -> List[Any]:
+    out = []
+    for x in xs:
+        keep = f(x) if f is not None else x
+        if not isinstance(keep, (bool, int, type(None), str, list, tuple)):
+            raise Undecided("filter with an abstract predicate value")
+        if keep:
+            out.append(x)
+    return out
+
+
 NOTIMPL = Tag("NotImplemented")
 _NODISPATCH = Tag("no-dispatch")
 
@@ -1275,6 +1286,7 @@ BUILTINS: Dict[str, Callable[..., Any]] = {
     "tuple": lambda x=(): tuple(x),
     "map": lambda f, *xs: [f(*t) for t in zip(*xs)],
     "zip": lambda *xs: [tuple(t) for t in zip(*xs)],
+    "filter": lambda f, xs: _filter(f, xs),
     "enumerate": lambda xs, start=0: [(i, x) for i, x in enumerate(xs, start)],
     "reversed": lambda xs: list(reversed(xs)),
     "sum": _sum,
@@ -1285,7 +1297,8 @@ BUILTINS: Dict[str, Callable[..., Any]] = {
     "any": lambda xs: any(xs),
     "int": lambda x, *b: _int(x, *b),
     "bool": lambda x: bool(x) if isinstance(x, (int, bool)) else (_ for _ in ()).throw(Undecided("bool()")),
-    "str": lambda x: str(x) if isinstance(x, (int, str)) and not isinstance(x, bool) else (_ for _ in ()).throw(Undecided("str()")),
+    "str": lambda x: (str(bool(x)) if isinstance(x, bool) else str(int(x)) if isinstance(x, int) else x) if isinstance(x, (int, str)) else
+    (_ for _ in ()).throw(Undecided("str()")),
     "dict": lambda *a, **k: dict(*a, **k),
     "set": lambda *a: set(*a),
     "slice": lambda *a: slice(*a),
